@@ -70,8 +70,13 @@ def gen_stream(rng, cf_names, kind):
         ent.append(('Filter', N('Crypt')))
     elif kind == 'crypt-array':
         # two filters, the decode parameters as the parallel array (7.3.8.2, Table 5)
-        ent.append(('Filter', A([N('Crypt'), N('ASCIIHexDecode')])))
-        ent.append(('DecodeParms', A([D([('Name', N(cf_names[-1]))]), NULL])))
+        # Crypt first or second: the decode parameters sit at the position Crypt has among the filters
+        if rng.random() < 0.5:
+            ent.append(('Filter', A([N('Crypt'), N('ASCIIHexDecode')])))
+            ent.append(('DecodeParms', A([D([('Name', N(cf_names[-1]))]), NULL])))
+        else:
+            ent.append(('Filter', A([N('ASCIIHexDecode'), N('Crypt')])))
+            ent.append(('DecodeParms', A([D([('Name', N(cf_names[0]))]), D([('Name', N(cf_names[-1]))])])))
     elif kind == 'embedded':
         ent.append(('Type', N('EmbeddedFile')))
     elif kind == 'dictstr':
@@ -229,7 +234,7 @@ ALL_FEATS = {'metadata', 'xref', 'crypt', 'crypt-noparms', 'dictstr', 'metadata-
 
 def plan(tier):
     if tier == 'quick':
-        return [('v1', 6), ('v2', 10), ('v4', 22), ('r5', 6), ('v5', 1), ('v4-eff', 1), ('v4-dparr', 1), ('direct', 2)]
+        return [('v1', 6), ('v2', 10), ('v4', 22), ('r5', 6), ('v5', 1), ('v4-eff', 1), ('v4-dparr', 3), ('direct', 2)]
     return [('v1', 150), ('v2', 400), ('v4', 700), ('r5', 200), ('v5', 40), ('v4-eff', 10), ('v4-dparr', 10), ('direct', 20)]
 
 
